@@ -315,6 +315,20 @@ theorem no_archive_header_is_adapter_failure (g : Glue) (found : Bool) :
     consumeGlue g (.txhashsetReq false found) = consumeGlueF g (.txhashsetReq true found) "txhashset_archive_header" := by
   cases hb : g.banned <;> cases found <;> simp [consumeGlue, consumeGlueF, truncAt, hb, Call.fallible, Call.method]
 
+/-- **an io error inside the handler ends the connection**: the only `io` point on the accepted-archive path is
+the `open` of the temporary file (regenerated); when it fails the adapter calls made are those of the
+successful path, the request is used up all the same, no attachment is expected (`ioErr`, not `attachment`),
+and `Error::Connection` is not among the errors `try_break!` tolerates -/
+theorem io_error_ends_connection (g : Glue) (hb : g.banned = false) (hr : g.ready = true) (hs : g.syncRequested = true)
+    (h : Bytes) (n : Nat) :
+    (consumeGlueIo g (.archive h n)).2.2 = .ioErr ∧
+    (consumeGlueIo g (.archive h n)).2.1 = (consumeGlue g (.archive h n)).2.1 ∧
+    (consumeGlueIo g (.archive h n)).1.syncRequested = false ∧
+    (consumePaths.lookup "TxHashSetArchive").map (fun ps => ps.map (·.2.2.1)) = some [[], ["io:open"]] ∧
+    ("io::Error", "Connection") ∈ errorConversions ∧ "Connection" ∉ toleratedErrors := by
+  refine ⟨by simp [consumeGlueIo, hb, hr, hs], by simp [consumeGlueIo, consumeGlue, hb, hr, hs],
+    by simp [consumeGlueIo, hb, hr, hs], by decide, by decide, by decide⟩
+
 /-- **which errors are swallowed, which end the connection** (regenerated facts): every entry of a path is a `ChainAdapter` / `NetAdapter` method, and every `?` behind an
 adapter call is on a method returning `Result<_, chain::Error>`; `chain::Error` becomes `Error::Chain`,
 which `try_break!` tolerates; the other `?` points of the handler are `io::Error` (→ `Error::Connection`,
